@@ -36,405 +36,215 @@ theorem fromBom_none_utf8 (bs : List UInt8) (h : (Encoding.fromBom bs).2 = 0) : 
   unfold Encoding.fromBom at h ⊢
   split <;> simp_all
 
-/-- `from_bytes` on at least three bytes: sniff, skip the BOM, read the lines, frame them. -/
-theorem decodeBytes_ge3 (D : LineDecoder σ) (bs : List UInt8) (h : 3 ≤ bs.length) :
+theorem bomSpec_none (bs : List UInt8) :
+    bomSpec bs none = (.ok (Encoding.fromBom bs).1, bs.drop (Encoding.fromBom bs).2) := by
+  unfold bomSpec; split <;> rfl
+
+/-- `from_bytes`, every input: sniff, skip the BOM, read the lines, frame them. -/
+theorem decodeBytes_eq (D : LineDecoder σ) (bs : List UInt8) :
     decodeBytes D bs =
       match linesOf (Encoding.fromBom bs).1 (bs.drop (Encoding.fromBom bs).2) with
       | (_, some k) => .error k
       | (ls, none) => .ok (frame D ls) := by
-  have hne : bs.isEmpty = false := by cases bs <;> simp_all
-  have hb : bomOk (Sched.ofBytes bs) = true := by
-    unfold Sched.ofBytes
-    simp only [hne, Bool.false_eq_true, if_false, bomOk]
-    have : bs.length ≠ 0 := by omega
-    simp [this, h]
   unfold decodeBytes
-  rw [decodeSched_spec D _ hb]
-  have hp : Sched.pre (Sched.ofBytes bs) = bs := by unfold Sched.ofBytes; simp [hne, Sched.pre]
-  have hf : Sched.firstFail (Sched.ofBytes bs) = none := by unfold Sched.ofBytes; simp [hne, Sched.firstFail]
+  rw [decodeSched_spec]
+  have hp : Sched.pre (Sched.ofBytes bs) = bs := by unfold Sched.ofBytes; cases bs <;> simp [Sched.pre]
+  have hf : Sched.firstFail (Sched.ofBytes bs) = none := by
+    unfold Sched.ofBytes; cases bs <;> simp [Sched.firstFail]
   rw [hp, hf, linesOf_eq]
-  unfold decodeSpec bomSpec
-  simp only [hne, Bool.false_eq_true, if_false]
+  unfold decodeSpec
+  rw [bomSpec_none]
   rfl
-
-theorem decodeBytes_nil (D : LineDecoder σ) : decodeBytes D [] = .ok (frame D []) := by
-  rfl
-
-/-! ### files too short to carry anything -/
-
-theorem short_files_lose_content (D : LineDecoder σ) (bs : List UInt8) (h1 : 0 < bs.length) (h2 : bs.length < 3) :
-    decodeBytes D bs = decodeBytes D [] := by
-  have hne : bs.isEmpty = false := by cases bs <;> simp_all
-  have h0 : bs.length ≠ 0 := by omega
-  have h3 : ¬ bs.length ≥ 3 := by omega
-  simp [decodeBytes, Sched.ofBytes, decodeSched, hne, readBom, h0, h3]
-
-theorem beq_false_of_length_ne (a b : Str) (h : a.length ≠ b.length) : (a == b) = false := by
-  cases hab : a == b with
-  | false => rfl
-  | true => have : a = b := by simpa using hab
-            subst this; exact absurd rfl h
-
-theorem ofName_short (n : Str) (h : n.length < 5) : Section.ofName n = none := by
-  unfold Section.ofName
-  have e : ∀ m : Str, 5 ≤ m.length → (n == m) = false := fun m hm => beq_false_of_length_ne n m (by omega)
-  repeat' split
-  all_goals first | rfl | (rename_i hh; rw [e _ (by decide)] at hh; cases hh)
-
-theorem stripSuffixChar_length (c : Char) (s r : Str) (h : stripSuffixChar c s = some r) : r.length + 1 = s.length := by
-  induction s generalizing r with
-  | nil => simp [stripSuffixChar] at h
-  | cons x xs ih =>
-    cases xs with
-    | nil =>
-      simp only [stripSuffixChar] at h
-      split at h
-      · cases h; rfl
-      · cases h
-    | cons y ys =>
-      simp only [stripSuffixChar] at h
-      cases hs : stripSuffixChar c (y :: ys) with
-      | none => simp [hs] at h
-      | some r' =>
-        simp [hs] at h
-        subst h
-        have := ih r' hs
-        simp at this ⊢
-        omega
-
-theorem tryFromLine_short (l : Str) (h : l.length < 7) : Section.tryFromLine l = none := by
-  unfold Section.tryFromLine
-  cases l with
-  | nil => rfl
-  | cons c rest =>
-    simp only []
-    split
-    · cases hs : stripSuffixChar ']' rest with
-      | none => rfl
-      | some name =>
-        simp only []
-        have := stripSuffixChar_length _ _ _ hs
-        exact ofName_short name (by simp at h; omega)
-    · rfl
-
-theorem startsWith_short (l p : Str) (h : l.length < p.length) : startsWith l p = false := by
-  induction l generalizing p with
-  | nil => cases p <;> simp_all [startsWith]
-  | cons c cs ih =>
-    cases p with
-    | nil => simp at h
-    | cons q qs => simp [startsWith, ih qs (by simp at h; omega)]
-
-theorem tryVersion_short (l : Str) (h : l.length < 7) : tryVersionFromLine l = if l.isEmpty then .cont else .bad := by
-  unfold tryVersionFromLine
-  rw [startsWith_short l versionPrefix (by have : versionPrefix.length = 17 := by decide
-                                           omega)]
-  simp
-
-theorem findFirstSection_short (ls : List Str) (h : ∀ l ∈ ls, l.length < 7) : (findFirstSection ls).1 = none := by
-  induction ls with
-  | nil => rfl
-  | cons l rest ih =>
-    simp only [findFirstSection, tryFromLine_short l (h l (by simp))]
-    exact ih (fun x hx => h x (by simp [hx]))
-
-/-- a file all of whose lines are shorter than the shortest header carries nothing. -/
-theorem frame_short (D : LineDecoder σ) (ls : List Str) (h : ∀ l ∈ ls, l.length < 7) :
-    frame D ls = D.create latestVersion := by
-  unfold frame
-  have pv : ∀ ls : List Str, (∀ l ∈ ls, l.length < 7) →
-      (parseVersion ls).1 = none ∧ (∀ l ∈ (parseVersion ls).2.2.2, l.length < 7) ∧ (parseVersion ls).2.2.1.length < 7 := by
-    intro ls
-    induction ls with
-    | nil => intro _; simp [parseVersion]
-    | cons l rest ih =>
-      intro hh
-      simp only [parseVersion, tryVersion_short l (hh l (by simp))]
-      by_cases he : l.isEmpty = true
-      · simp only [he, if_true]
-        exact ih (fun x hx => hh x (by simp [hx]))
-      · simp only [he, Bool.false_eq_true, if_false]
-        exact ⟨trivial, fun x hx => hh x (by simp [hx]), hh l (by simp)⟩
-  obtain ⟨p1, p2, p3⟩ := pv ls h
-  cases hp : parseVersion ls with
-  | mk v r1 =>
-    obtain ⟨u, curr, rest⟩ := r1
-    rw [hp] at p1 p2 p3
-    simp only at p1 p2 p3
-    subst p1
-    simp only [Option.getD]
-    have ff := findFirstSection_short rest p2
-    unfold parseFirstSection
-    cases u with
-    | false =>
-      simp only [Bool.false_eq_true, if_false]
-      cases hf : findFirstSection rest with
-      | mk o r => rw [hf] at ff; simp only at ff; subst ff; rfl
-    | true =>
-      simp only [if_true, tryFromLine_short curr p3]
-      cases hf : findFirstSection rest with
-      | mk o r => rw [hf] at ff; simp only at ff; subst ff; rfl
-
-theorem linesBy_piece_length {α : Type} (p : α → Bool) (xs : List α) : ∀ l ∈ linesBy p xs, l.length ≤ xs.length := by
-  induction xs with
-  | nil => simp [linesBy]
-  | cons a as ih =>
-    intro l hl
-    simp only [linesBy] at hl
-    split at hl
-    · simp only [List.mem_cons] at hl
-      cases hl with
-      | inl h => subst h; simp
-      | inr h => have := ih l h; simp; omega
-    · cases hL : linesBy p as with
-      | nil => rw [hL] at hl; simp [consHead] at hl; subst hl; simp
-      | cons l0 ls =>
-        rw [hL] at hl ih
-        simp only [consHead, List.mem_cons] at hl
-        cases hl with
-        | inl h => subst h; have := ih l0 (by simp); simp; omega
-        | inr h => have := ih l (by simp [h]); simp; omega
-
-theorem utf8LossyFuel_length (fuel : Nat) (bs : List UInt8) : (utf8LossyFuel fuel bs).length ≤ fuel := by
-  induction fuel generalizing bs with
-  | zero => simp [utf8LossyFuel]
-  | succ n ih =>
-    cases bs with
-    | nil => simp [utf8LossyFuel]
-    | cons b0 rest =>
-      simp only [utf8LossyFuel]
-      repeat' split
-      all_goals simp only [List.length_cons, List.length_nil]
-      all_goals first | omega | (apply Nat.succ_le_succ; exact ih _)
-
-theorem trimEnd_length (s : Str) : (trimEnd s).length ≤ s.length := by
-  induction s with
-  | nil => simp [trimEnd]
-  | cons c cs ih =>
-    simp only [trimEnd]
-    cases h : trimEnd cs with
-    | nil => simp only []; split <;> simp
-    | cons x xs => rw [h] at ih; simp at ih ⊢; omega
-
-/-- no line is longer (in characters) than the file is (in bytes). -/
-theorem utf8_line_length (bs : List UInt8) : ∀ l ∈ (linesOf .utf8 bs).1, l.length ≤ bs.length := by
-  rw [linesOf_eq, linesSpec_rawLines .utf8 rfl]
-  intro l hl
-  simp only [List.mem_map] at hl
-  obtain ⟨raw, hr, rfl⟩ := hl
-  have h1 := linesBy_piece_length isLFb bs raw hr
-  have h2 := utf8LossyFuel_length raw.length raw
-  have h3 := trimEnd_length (utf8Lossy raw)
-  simp only [currLine, Encoding.decode]
-  unfold utf8Lossy at h3 ⊢
-  omega
-
-/-! ### (a) the UTF-8 BOM -/
-
-/-- files of at least three bytes (or none); shorter ones: `utf8_bom_transparent_short`. -/
-theorem utf8_bom_transparent_ge3 (D : LineDecoder σ) (bs : List UInt8)
-    (hb : (Encoding.fromBom bs).2 = 0) (hl : 3 ≤ bs.length ∨ bs = []) :
-    decodeBytes D (utf8Bom ++ bs) = decodeBytes D bs := by
-  have e : decodeBytes D (utf8Bom ++ bs) =
-      match linesOf .utf8 bs with
-      | (_, some k) => .error k
-      | (ls, none) => .ok (frame D ls) := by
-    rw [decodeBytes_ge3 D _ (by simp [utf8Bom])]
-    simp only [utf8Bom, List.cons_append, List.nil_append, fromBom_utf8, List.drop_succ_cons, List.drop_zero]
-  rw [e]
-  cases hl with
-  | inl h3 =>
-    rw [decodeBytes_ge3 D bs h3, hb, fromBom_none_utf8 bs hb, List.drop_zero]
-  | inr h0 =>
-    subst h0
-    rw [decodeBytes_nil, linesOf_eq, linesSpec_nil]
-
-/-- a file of one or two bytes: with a BOM in front its one or two characters reach the framing,
-which finds neither version nor header in them; without, the BOM sniffing consumes them. Same outcome. -/
-theorem utf8_bom_transparent_short (D : LineDecoder σ) (bs : List UInt8) (h2 : bs.length < 3) :
-    decodeBytes D (utf8Bom ++ bs) = decodeBytes D bs := by
-  have e : decodeBytes D (utf8Bom ++ bs) =
-      match linesOf .utf8 bs with
-      | (_, some k) => .error k
-      | (ls, none) => .ok (frame D ls) := by
-    rw [decodeBytes_ge3 D _ (by simp [utf8Bom])]
-    simp only [utf8Bom, List.cons_append, List.nil_append, fromBom_utf8, List.drop_succ_cons, List.drop_zero] <;> rfl
-  have hs : ∀ l ∈ (linesOf .utf8 bs).1, l.length < 7 := fun l hl => by
-    have := utf8_line_length bs l hl; omega
-  have hn : (linesOf .utf8 bs).2 = none := by rw [linesOf_eq, linesSpec_rawLines .utf8 rfl]
-  rw [e]
-  cases hl : linesOf .utf8 bs with
-  | mk ls eo =>
-    rw [hl] at hs hn
-    simp only at hs hn
-    subst hn
-    simp only []
-    rw [frame_short D ls hs]
-    by_cases h0 : bs = []
-    · subst h0; rw [decodeBytes_nil, frame_short D [] (by simp)]
-    · rw [short_files_lose_content D bs (by cases bs <;> simp_all) h2, decodeBytes_nil, frame_short D [] (by simp)]
-
-/-- **A UTF-8 BOM in front of a file changes nothing** — every file that does not itself start
-with a byte-order mark (a second BOM is content). -/
-theorem utf8_bom_transparent (D : LineDecoder σ) (bs : List UInt8) (hb : (Encoding.fromBom bs).2 = 0) :
-    decodeBytes D (utf8Bom ++ bs) = decodeBytes D bs := by
-  by_cases h3 : 3 ≤ bs.length
-  · exact utf8_bom_transparent_ge3 D bs hb (Or.inl h3)
-  · exact utf8_bom_transparent_short D bs (by omega)
-
-example : (Encoding.fromBom [0x5B, 0x47, 0x5D, 0x0A]).2 = 0 ∧ 3 ≤ [0x5B, 0x47, 0x5D, (0x0A : UInt8)].length := by decide
-
-/-! ### (b) UTF-16 -/
-
-/-- no UTF-16 code unit of the text other than U+000A contains the byte 0x0A
-(U+010A `Ċ`, U+0A00–U+0AFF, U+4E0A `上`, a low surrogate U+DC0A … are excluded). -/
-def noStrayLF (t : Str) : Bool := (utf16Units t).all okUnit
-
-theorem currLine_utf8 (l : Str) : currLine .utf8 (utf8Encode l) = trimEnd l := by
-  simp [currLine, Encoding.decode, utf8Lossy_utf8Encode]
-
-theorem currLine_utf16 (le : Bool) (l : Str) :
-    currLine (if le then .utf16le else .utf16be) ((utf16Units l).flatMap (unitBytes le)) = trimEnd l := by
-  cases le <;>
-    simp [currLine, Encoding.decode, u16s_unitBytes _ _ (utf16Units_lt l), decodeUtf16_utf16Units]
-
-/-- the text-level reading of a file: cut after every U+000A, trim the end of each line. -/
-def textSpec (t : Str) : List Str × Option IoKind := ((textLines t).map trimEnd, none)
-
-/-- UTF-8: the reader yields exactly the text's lines, for every text. -/
-theorem utf8_lines (t : Str) : linesOf .utf8 (utf8Encode t) = textSpec t := by
-  rw [linesOf_eq, linesSpec_rawLines _ rfl, rawLines_utf8Encode, List.map_map]
-  unfold textSpec
-  congr 1
-  apply List.map_congr_left
-  intro l _
-  exact currLine_utf8 l
-
-/-- UTF-16BE: the same lines, for texts without a stray 0x0A byte. -/
-theorem utf16be_lines_partial (t : Str) (h : noStrayLF t = true) :
-    linesOf .utf16be (encodeUtf16 false t) = textSpec t := by
-  unfold encodeUtf16
-  rw [linesOf_eq, linesSpec_rawLines _ rfl, rawLines_units _ h, linesBy_utf16Units, List.map_map, List.map_map]
-  unfold textSpec
-  congr 1
-  apply List.map_congr_left
-  intro l _
-  exact currLine_utf16 false l
-
-/-- UTF-16LE: the same lines and no `UnexpectedEof`, for texts without a stray 0x0A byte. -/
-theorem utf16le_lines_partial (t : Str) (h : noStrayLF t = true) :
-    linesOf .utf16le (encodeUtf16 true t) = textSpec t := by
-  unfold encodeUtf16
-  obtain ⟨hr, hd⟩ := rawLinesLE_units _ h
-  obtain ⟨e2, e1⟩ := linesSpec_rawLinesLE ((utf16Units t).flatMap (unitBytes true))
-  rw [linesOf_eq]
-  rw [hd] at e2
-  have e1' := e1 hd
-  rw [hr, linesBy_utf16Units, List.map_map, List.map_map] at e1'
-  unfold textSpec
-  apply Prod.ext
-  · rw [e1']
-    apply List.map_congr_left
-    intro l _
-    exact currLine_utf16 true l
-  · simpa using e2
-
-/-- **C10, proved part (lines).** For every text none of whose UTF-16 code units other than U+000A
-contains the byte 0x0A, the reader yields the same lines in UTF-8, UTF-16LE and UTF-16BE. -/
-theorem utf16_lines_transparent_partial (t : Str) (h : noStrayLF t = true) :
-    linesOf .utf16le (encodeUtf16 true t) = linesOf .utf8 (utf8Encode t) ∧
-    linesOf .utf16be (encodeUtf16 false t) = linesOf .utf8 (utf8Encode t) := by
-  rw [utf16le_lines_partial t h, utf16be_lines_partial t h, utf8_lines]
-  exact ⟨rfl, rfl⟩
-
-/-- **C10, proved part (`from_bytes`).** Same hypothesis; the UTF-8 form has at least three bytes
-and does not start with U+FEFF (which *is* the BOM). The four encodings decode identically. -/
-theorem utf16_transparent_partial (D : LineDecoder σ) (t : Str) (h : noStrayLF t = true)
-    (h3 : 3 ≤ (utf8Encode t).length) (hb : (Encoding.fromBom (utf8Encode t)).2 = 0) :
-    decodeBytes D (utf16leBom ++ encodeUtf16 true t) = decodeBytes D (utf8Encode t) ∧
-    decodeBytes D (utf16beBom ++ encodeUtf16 false t) = decodeBytes D (utf8Encode t) ∧
-    decodeBytes D (utf8Bom ++ utf8Encode t) = decodeBytes D (utf8Encode t) := by
-  have hne : t ≠ [] := by intro e; subst e; simp [utf8Encode] at h3
-  have hlen : ∀ le, 2 ≤ (encodeUtf16 le t).length := by
-    intro le
-    cases t with
-    | nil => exact absurd rfl hne
-    | cons c cs =>
-      unfold encodeUtf16 utf16Units
-      simp only [List.flatMap_cons, List.flatMap_append, List.length_append]
-      have : 2 ≤ ((charUnits c).flatMap (unitBytes le)).length := by
-        unfold charUnits
-        split <;> cases le <;> simp [unitBytes]
-      omega
-  have r8 : decodeBytes D (utf8Encode t) =
-      match textSpec t with
-      | (_, some k) => .error k
-      | (ls, none) => .ok (frame D ls) := by
-    rw [decodeBytes_ge3 D _ h3, hb, fromBom_none_utf8 _ hb, List.drop_zero, utf8_lines]
-  refine ⟨?_, ?_, utf8_bom_transparent_ge3 D _ hb (Or.inl h3)⟩
-  · rw [r8, decodeBytes_ge3 D _ (by have := hlen true; simp [utf16leBom]; omega)]
-    simp only [utf16leBom, List.cons_append, List.nil_append, fromBom_le, List.drop_succ_cons, List.drop_zero]
-    rw [utf16le_lines_partial t h]
-  · rw [r8, decodeBytes_ge3 D _ (by have := hlen false; simp [utf16beBom]; omega)]
-    simp only [utf16beBom, List.cons_append, List.nil_append, fromBom_be, List.drop_succ_cons, List.drop_zero]
-    rw [utf16be_lines_partial t h]
-
-/-- non-vacuity: CJK, an astral character, U+2028 and U+3000 are fine. -/
-example : noStrayLF (str "[General]\nTitle: 日本 😀 x　") = true ∧
-    3 ≤ (utf8Encode (str "[General]\nTitle: 日本 😀 x　")).length ∧
-    (Encoding.fromBom (utf8Encode (str "[General]\nTitle: 日本 😀 x　"))).2 = 0 := by decide
-
-/-- the property as stated: every text. -/
-def utf16_transparent_statement : Prop :=
-  ∀ (σ : Type) (D : LineDecoder σ) (t : Str),
-    decodeBytes D (utf16leBom ++ encodeUtf16 true t) = decodeBytes D (utf8Encode t) ∧
-    decodeBytes D (utf16beBom ++ encodeUtf16 false t) = decodeBytes D (utf8Encode t)
 
 def nCalls (r : Except IoKind Rec) : Nat :=
   match r with
   | .ok st => st.calls.length
   | .error _ => 0
 
-/-- `[General]⏎aĊb` with U+010A. -/
-def witnessText : Str := str "[General]\naĊb"
+/-! ### (a) the UTF-8 BOM -/
 
-theorem witness_outcomes :
-    nCalls (decodeBytes recorder (utf8Encode witnessText)) = 1 ∧
-    nCalls (decodeBytes recorder (utf16leBom ++ encodeUtf16 true witnessText)) = 2 ∧
-    nCalls (decodeBytes recorder (utf16beBom ++ encodeUtf16 false witnessText)) = 2 := by
-  decide
+/-- **A UTF-8 BOM in front of a file changes nothing** — every file, of any length, that does not
+itself start with a byte-order mark (a second BOM is content). -/
+theorem utf8_bom_transparent (D : LineDecoder σ) (bs : List UInt8) (hb : (Encoding.fromBom bs).2 = 0) :
+    decodeBytes D (utf8Bom ++ bs) = decodeBytes D bs := by
+  rw [decodeBytes_eq, decodeBytes_eq D bs, hb, fromBom_none_utf8 bs hb]
+  simp only [utf8Bom, List.cons_append, List.nil_append, fromBom_utf8, List.drop_succ_cons, List.drop_zero]
 
-/-- **The full statement is false of the code (finding F5)**: the line search looks for the
-*byte* 0x0A, so U+010A cuts its line in two in both UTF-16 byte orders. -/
-theorem utf16_transparent_false : ¬ utf16_transparent_statement := by
-  intro h
-  have e := (h Rec recorder witnessText).1
-  have := witness_outcomes
-  rw [e] at this
+example : (Encoding.fromBom [0x5B, 0x47, (0x5D : UInt8)]).2 = 0 ∧ (Encoding.fromBom [(0x41 : UInt8)]).2 = 0 := by decide
+
+/-! ### (b) UTF-16 -/
+
+theorem currLine_utf8 (l : Str) : currLine .utf8 (utf8Encode l) = trimEnd l := by
+  simp [currLine, Encoding.decode, utf8Lossy_utf8Encode]
+
+theorem currLine_utf16 (le : Bool) (l : Str) :
+    currLine (enc16 le) ((utf16Units l).flatMap (unitBytes le)) = trimEnd l := by
+  cases le <;>
+    simp [enc16, currLine, Encoding.decode, u16s_unitBytes _ _ (utf16Units_lt l), decodeUtf16_utf16Units]
+
+/-- the text-level reading of a file: cut after every U+000A, trim the end of each line. -/
+def textSpec (t : Str) : List Str × Option IoKind := ((textLines t).map trimEnd, none)
+
+/-- UTF-8: the reader yields exactly the text's lines, for every text. -/
+theorem utf8_lines (t : Str) : linesOf .utf8 (utf8Encode t) = textSpec t := by
+  rw [linesOf_eq, linesSpec_rawLines, rawLines_utf8Encode, List.map_map]
+  unfold textSpec
+  congr 1
+  apply List.map_congr_left
+  intro l _
+  exact currLine_utf8 l
+
+/-- **UTF-16, either byte order: the reader yields exactly the text's lines, for every text** —
+whatever bytes its code units contain (U+010A, U+0A0A, U+4E0A, surrogates `xx0A` …): the
+`read_line` loop ends a line only at a code unit that *is* U+000A. -/
+theorem utf16_lines (le : Bool) (t : Str) : linesOf (enc16 le) (encodeUtf16 le t) = textSpec t := by
+  unfold encodeUtf16
+  rw [linesOf_eq, linesSpec_units le _ (utf16Units_lt t), linesBy_utf16Units, List.map_map]
+  unfold textSpec
+  congr 1
+  apply List.map_congr_left
+  intro l _
+  exact currLine_utf16 le l
+
+/-- **C10 (lines).** The same text yields the same lines in UTF-8, UTF-16LE and UTF-16BE. -/
+theorem utf16_lines_transparent (t : Str) :
+    linesOf .utf16le (encodeUtf16 true t) = linesOf .utf8 (utf8Encode t) ∧
+    linesOf .utf16be (encodeUtf16 false t) = linesOf .utf8 (utf8Encode t) := by
+  rw [utf8_lines]
+  exact ⟨utf16_lines true t, utf16_lines false t⟩
+
+theorem fromBom_head (b0 : UInt8) (rest : List UInt8) (h1 : b0 ≠ 0xEF) (h2 : b0 ≠ 0xFF) (h3 : b0 ≠ 0xFE) :
+    (Encoding.fromBom (b0 :: rest)).2 = 0 := by
+  unfold Encoding.fromBom
+  split <;> simp_all
+
+theorem fromBom_ef (b1 b2 : UInt8) (rest : List UInt8) (h : ¬ (b1 = 0xBB ∧ b2 = 0xBF)) :
+    (Encoding.fromBom (0xEF :: b1 :: b2 :: rest)).2 = 0 := by
+  unfold Encoding.fromBom
+  split <;> simp_all
+
+theorem ofNat_ne (n m : Nat) (hn : n < 256) (hm : m < 256) (h : n ≠ m) : UInt8.ofNat n ≠ UInt8.ofNat m := by
+  intro e
+  have := congrArg UInt8.toNat e
+  simp only [UInt8.toNat_ofNat'] at this
   omega
 
-/-- and **finding F6**: the bytes `FF FE 0A` (a UTF-16LE file cut after the low byte of its last
-line feed) make the decoder itself fail, with no reader fault anywhere. -/
-theorem utf16le_dangling_lf_errors (D : LineDecoder σ) :
-    decodeBytes D [0xFF, 0xFE, 0x0A] = .error .unexpectedEof := by
-  rfl
+/-- the UTF-8 form of a text starts with a byte-order mark only if the text starts with U+FEFF. -/
+theorem fromBom_utf8Encode (t : Str) (h : t.head? ≠ some (Char.ofNat 0xFEFF)) :
+    (Encoding.fromBom (utf8Encode t)).2 = 0 := by
+  cases t with
+  | nil => rfl
+  | cons c cs =>
+    have hc : c.toNat ≠ 0xFEFF := by
+      intro e
+      apply h
+      simp only [List.head?_cons, Option.some.injEq]
+      rw [← Char.ofNat_toNat c, e]
+    have hv := char_valid c
+    unfold utf8Encode
+    simp only [List.flatMap_cons]
+    by_cases a : c.toNat ≤ 127
+    · rw [u8_enc1 c a]
+      exact fromBom_head _ _ (ofNat_ne _ 0xEF (by omega) (by omega) (by omega))
+        (ofNat_ne _ 0xFF (by omega) (by omega) (by omega)) (ofNat_ne _ 0xFE (by omega) (by omega) (by omega))
+    · by_cases b : c.toNat ≤ 2047
+      · rw [u8_enc2 c (by omega) b]
+        exact fromBom_head _ _ (ofNat_ne _ 0xEF (by omega) (by omega) (by omega))
+          (ofNat_ne _ 0xFF (by omega) (by omega) (by omega)) (ofNat_ne _ 0xFE (by omega) (by omega) (by omega))
+      · by_cases d : c.toNat ≤ 65535
+        · rw [u8_enc3 c (by omega) d]
+          by_cases e : c.toNat / 4096 % 16 = 15
+          · have : UInt8.ofNat (c.toNat / 4096 % 16 + 224) = 0xEF := by rw [e]; rfl
+            simp only [List.cons_append, List.nil_append, this]
+            apply fromBom_ef
+            intro ⟨h1, h2⟩
+            have g1 := congrArg UInt8.toNat h1
+            have g2 := congrArg UInt8.toNat h2
+            simp only [UInt8.toNat_ofNat', UInt8.toNat_ofNat] at g1 g2
+            omega
+          · exact fromBom_head _ _ (ofNat_ne _ 0xEF (by omega) (by omega) (by omega))
+              (ofNat_ne _ 0xFF (by omega) (by omega) (by omega)) (ofNat_ne _ 0xFE (by omega) (by omega) (by omega))
+        · rw [u8_enc4 c (by omega)]
+          exact fromBom_head _ _ (ofNat_ne _ 0xEF (by omega) (by omega) (by omega))
+            (ofNat_ne _ 0xFF (by omega) (by omega) (by omega)) (ofNat_ne _ 0xFE (by omega) (by omega) (by omega))
+/-- **C10 (`from_bytes`).** Every text whose UTF-8 form does not start with a byte-order mark
+(i.e. the text does not start with U+FEFF, which in UTF-8 *is* the BOM — `fromBom_utf8Encode`)
+decodes identically from UTF-8, UTF-8 with BOM, UTF-16LE with BOM and UTF-16BE with BOM. -/
+theorem utf16_transparent_of_noBom (D : LineDecoder σ) (t : Str) (hb : (Encoding.fromBom (utf8Encode t)).2 = 0) :
+    decodeBytes D (utf16leBom ++ encodeUtf16 true t) = decodeBytes D (utf8Encode t) ∧
+    decodeBytes D (utf16beBom ++ encodeUtf16 false t) = decodeBytes D (utf8Encode t) ∧
+    decodeBytes D (utf8Bom ++ utf8Encode t) = decodeBytes D (utf8Encode t) := by
+  have r8 : decodeBytes D (utf8Encode t) =
+      match textSpec t with
+      | (_, some k) => .error k
+      | (ls, none) => .ok (frame D ls) := by
+    rw [decodeBytes_eq, hb, fromBom_none_utf8 _ hb, List.drop_zero, utf8_lines]
+  refine ⟨?_, ?_, utf8_bom_transparent D _ hb⟩
+  · rw [r8, decodeBytes_eq]
+    simp only [utf16leBom, List.cons_append, List.nil_append, fromBom_le, List.drop_succ_cons, List.drop_zero]
+    rw [show Encoding.utf16le = enc16 true from rfl, utf16_lines true t]
+  · rw [r8, decodeBytes_eq]
+    simp only [utf16beBom, List.cons_append, List.nil_append, fromBom_be, List.drop_succ_cons, List.drop_zero]
+    rw [show Encoding.utf16be = enc16 false from rfl, utf16_lines false t]
+
+example : (Encoding.fromBom (utf8Encode (str "[General]\nTitle: aĊb 上 ਊ 𐐊"))).2 = 0 := by decide
+
+/-- **C10.** Every text that does not start with U+FEFF decodes identically from UTF-8, UTF-8 with
+BOM, UTF-16LE with BOM and UTF-16BE with BOM. -/
+theorem utf16_transparent (D : LineDecoder σ) (t : Str) (h : t.head? ≠ some (Char.ofNat 0xFEFF)) :
+    decodeBytes D (utf16leBom ++ encodeUtf16 true t) = decodeBytes D (utf8Encode t) ∧
+    decodeBytes D (utf16beBom ++ encodeUtf16 false t) = decodeBytes D (utf8Encode t) ∧
+    decodeBytes D (utf8Bom ++ utf8Encode t) = decodeBytes D (utf8Encode t) :=
+  utf16_transparent_of_noBom D t (fromBom_utf8Encode t h)
+
+example : (str "[General]\nTitle: aĊb 上 ਊ 𐐊").head? ≠ some (Char.ofNat 0xFEFF) := by decide
+
+/-- the hypothesis is the format's own ambiguity, not a defect: in UTF-8 a leading U+FEFF *is* the
+byte-order mark and is stripped, after a UTF-16 BOM it is content. -/
+example :
+    nCalls (decodeBytes recorder (utf8Encode (Char.ofNat 0xFEFF :: str "[General]\nA"))) = 1 ∧
+    nCalls (decodeBytes recorder (utf16leBom ++ encodeUtf16 true (Char.ofNat 0xFEFF :: str "[General]\nA"))) = 0 := by
+  decide
+
+/-- the texts that used to be cut at a stray 0x0A byte (former finding F5) are one line in every
+encoding: U+010A, U+0A0A, U+4E0A, the surrogate pair of U+1040A (low surrogate DC0A). -/
+example :
+    nCalls (decodeBytes recorder (utf8Encode (str "[General]\naĊb"))) = 1 ∧
+    nCalls (decodeBytes recorder (utf16leBom ++ encodeUtf16 true (str "[General]\naĊb"))) = 1 ∧
+    nCalls (decodeBytes recorder (utf16beBom ++ encodeUtf16 false (str "[General]\naĊb"))) = 1 ∧
+    nCalls (decodeBytes recorder (utf16leBom ++ encodeUtf16 true (str "[General]\nਊ上𐐊x"))) = 1 ∧
+    nCalls (decodeBytes recorder (utf16beBom ++ encodeUtf16 false (str "[General]\nਊ上𐐊x"))) = 1 := by
+  decide
+
+/-- U+0A41 followed by a line feed, UTF-16LE bytes `41 0A 0A 00`: the first 0x0A sits at an odd
+index and is skipped, the second ends the line; and `0A 41 00 0A` in UTF-16BE likewise. -/
+example :
+    (linesOf .utf16le [0x41, 0x0A, 0x0A, 0x00, 0x42, 0x00]).1 = [[Char.ofNat 0x0A41], ['B']] ∧
+    (linesOf .utf16be [0x0A, 0x41, 0x00, 0x0A, 0x00, 0x42]).1 = [[Char.ofNat 0x0A41], ['B']] := by
+  decide
+
+/-- `FF FE 0A` — a UTF-16LE file cut after the low byte of its last line feed (former finding F6):
+end of input after that byte is end of data. -/
+example : nCalls (decodeBytes recorder [0xFF, 0xFE, 0x0A]) = 0 ∧
+    (linesOf .utf16le [0x0A]) = ([[]], none) := by
+  decide
 
 /-! ### (c) invalid bytes stay on their line -/
 
-/-- **What follows a line feed is read independently of what precedes it** (UTF-8 and UTF-16BE):
+/-- **What follows a line feed is read independently of what precedes it** (UTF-8):
 invalid bytes in `a` cannot affect the lines of `b`. -/
-theorem lossy_line_local (enc : Encoding) (henc : (enc == Encoding.utf16le) = false) (a b : List UInt8) :
-    linesOf enc (a ++ 0x0A :: b) =
-      ((linesOf enc (a ++ [0x0A])).1 ++ (linesOf enc b).1, none) := by
-  simp only [linesOf_eq, linesSpec_rawLines enc henc]
+theorem lossy_line_local (a b : List UInt8) :
+    linesOf .utf8 (a ++ 0x0A :: b) =
+      ((linesOf .utf8 (a ++ [0x0A])).1 ++ (linesOf .utf8 b).1, none) := by
+  simp only [linesOf_eq, linesSpec_rawLines]
   unfold rawLines
   rw [linesBy_append_lf isLFb a 0x0A b rfl, List.map_append]
 
 /-- the line the invalid bytes are on is the lossy conversion of exactly its own bytes. -/
 theorem lossy_first_line (a b : List UInt8) (ha : ∀ x ∈ a, isLFb x = false) :
     (linesOf .utf8 (a ++ 0x0A :: b)).1 = trimEnd (utf8Lossy (a ++ [0x0A])) :: (linesOf .utf8 b).1 := by
-  rw [lossy_line_local .utf8 rfl]
-  simp only [linesOf_eq, linesSpec_rawLines .utf8 rfl]
+  rw [lossy_line_local]
+  simp only [linesOf_eq, linesSpec_rawLines]
   have : rawLines (a ++ [0x0A]) = [a ++ [0x0A]] := by
     unfold rawLines
     cases a with
